@@ -116,7 +116,7 @@ func runTBLS(t *core.Tape, tier string, info *core.RunInfo) *core.Violation {
 	n := t.Range("cfg", 2, maxN)
 	th := t.Range("cfg", 2, n)
 	honestClass := t.Bool("cfg.class", 120)
-	msg := t.Bytes("cfg", 1+t.Intn("cfg", 40))
+	msg := kit.DrawMsg(t, "cfg", 40)
 	info.Config["session"], info.Config["suite"], info.Config["n"], info.Config["t"] = "tbls", c.name, n, th
 
 	secret := keyG.Scalar().SetBytes(t.Bytes("keys", 48))
@@ -316,6 +316,24 @@ func runTBLS(t *core.Tape, tier string, info *core.RunInfo) *core.Violation {
 				if !bytes.Equal(rec, want) {
 					return viol("recover", "tbls/recovered-differs-from-unique/"+c.name, "recovered signature differs from the signature of the group secret")
 				}
+				if t.Bool("sched.again", 300) {
+					// an aggregator that restarts recomputes from the partials it stored: the same slice gives
+					// the same signature again, and the stored partials are what they were
+					before := make([][]byte, len(sigs))
+					for i := range sigs {
+						before[i] = kit.CopyBytes(sigs[i])
+					}
+					rec2, err2 := ts.Recover(pub, rx(msg), sigs, uint32(th), uint32(n))
+					info.Fault("aggregator-recomputes")
+					if err2 != nil || !bytes.Equal(rec2, rec) {
+						return viol("recover", "tbls/recover-not-repeatable/"+c.name, "Recover over the same stored partials: first %x, then %x (err=%v)", head8(rec), head8(rec2), err2)
+					}
+					for i := range sigs {
+						if !bytes.Equal(sigs[i], before[i]) {
+							return viol("recover", "tbls/recover-changed-its-input/"+c.name, "Recover altered the stored partial %d", i)
+						}
+					}
+				}
 				if err := ts.VerifyRecovered(pub.Commit(), rx(msg), rec); err != nil {
 					return viol("recover", "tbls/recovered-does-not-verify/"+c.name, "VerifyRecovered: %v", err)
 				}
@@ -387,7 +405,7 @@ func runBDN(t *core.Tape, tier string, info *core.RunInfo) *core.Violation {
 	if t.Bool("cfg.boundary", 200) {
 		n = 8 + t.Intn("cfg.boundary", 2)
 	}
-	msg := t.Bytes("cfg", 1+t.Intn("cfg", 40))
+	msg := kit.DrawMsg(t, "cfg", 40)
 	info.Config["session"], info.Config["suite"], info.Config["n"] = "bdn", c.name, n
 	privs := make([]kyber.Scalar, n)
 	pubs := make([]kyber.Point, n)
@@ -635,4 +653,11 @@ func runBDN(t *core.Tape, tier string, info *core.RunInfo) *core.Violation {
 	}
 	info.Fault("duplicate-signature-offered")
 	return nil
+}
+
+func head8(b []byte) []byte {
+	if len(b) > 8 {
+		return b[:8]
+	}
+	return b
 }
